@@ -159,10 +159,8 @@ func registerEnvIntrinsics(I map[string]Intrinsic) {
 		*bufs = []Value(nil)
 		return Tuple{mkInt(total), nilErr()}
 	}
-	I["(*net.UnixConn).SyscallConn"] = func(g *G, a []Value, pos token.Pos) Value {
-		// peer credentials (SO_PEERCRED) are outside every claim
-		return Tuple{Iface{}, g.mkError("vnet: no raw connection")}
-	}
+	vredirect("(*net.UnixConn).SyscallConn", "UnixSyscallConn")
+	vredirect("syscall.GetsockoptUcred", "GetsockoptUcred")
 	I["os.Stat"] = func(g *G, a []Value, pos token.Pos) Value {
 		g.vm.ex.stubsUsed["os.Stat (always: not found)"]++
 		return Tuple{Iface{}, g.mkError("vnet: no such file")}
